@@ -18,7 +18,14 @@ var (
 		"application/activity+json; charset=utf-8",
 		"text/html, application/activity+json;q=0.9",
 	}
-	hdrNot = []string{"", "application/json", "text/html", "application/ld+json", "application/x-www-form-urlencoded", "*/*"}
+	hdrNot = []string{"", "application/json", "text/html", "application/ld+json", "application/x-www-form-urlencoded", "*/*",
+		`application/ld+json; profile="https://www.w3.org/ns/activitystreams-restricted"`,
+		`application/ld+json; profile="https://x.example/resolve?base=https://www.w3.org/ns/activitystreams"`,
+		// not listed: the UNQUOTED spelling profile=https://www.w3.org/ns/activitystreams-restricted. The library
+		// documents its matcher as substring containment ("we don't try to build a comprehensive parser"), the
+		// unquoted spelling is itself outside the HTTP token grammar, and the property does not say which way a
+		// malformed parameter falls; see DESIGN §7 (observations).
+	}
 	hdrAmb = []string{"APPLICATION/ACTIVITY+JSON", `application/ld+json; charset=utf-8; profile="https://www.w3.org/ns/activitystreams"`, "application/activity+jsonx"}
 )
 
